@@ -35,5 +35,80 @@ fn c18_min_status() {
     assert!(min_status(a, a) == a);
 }
 
+// ---- transition table ------------------------------------------------------------------------------------
+use crate::{
+    ff::FieldType,
+    helpers::{HelperIdentity, query::QueryType},
+};
+
+fn cfg() -> QueryConfig {
+    match QueryConfig::new(QueryType::TestMultiply, FieldType::Fp31, 1usize) {
+        Ok(c) => c,
+        Err(_) => {
+            kani::assume(false);
+            unreachable!()
+        }
+    }
+}
+fn roles() -> RoleAssignment {
+    RoleAssignment::new(HelperIdentity::make_three())
+}
+/// states that can be built without a live tokio task: 0 Empty, 1 Preparing, 2 AwaitingInputs,
+/// 3 AwaitingCompletion, 4 Completed
+fn mk(k: u8) -> QueryState {
+    match k {
+        0 => QueryState::Empty,
+        1 => QueryState::Preparing(cfg()),
+        2 => QueryState::AwaitingInputs(cfg(), roles()),
+        3 => QueryState::AwaitingCompletion,
+        _ => QueryState::Completed(Err(crate::error::Error::MaliciousRevealFailed)),
+    }
+}
+
+/// C18/transition: for every current state in {Empty, Preparing, AwaitingInputs, AwaitingCompletion, Completed}
+/// and every requested state in {Preparing, AwaitingInputs}: Ok exactly for Empty->Preparing,
+/// Empty->AwaitingInputs, Preparing->AwaitingInputs (the query only moves forward); a second Preparing is
+/// AlreadyRunning; everything else is InvalidState{from = status(cur)}; never a panic; Ok returns the new state.
+#[kani::proof]
+fn c18_transition_table() {
+    let c: u8 = kani::any();
+    let n: u8 = kani::any();
+    kani::assume(c < 5 && n >= 1 && n <= 2);
+    kani::cover!(c == 0 && n == 2);
+    kani::cover!(c == 4 && n == 2);
+    kani::cover!(c == 1 && n == 1);
+    let cur = mk(c);
+    let r = QueryState::transition(&cur, mk(n));
+    let allowed = (c == 0 && (n == 1 || n == 2)) || (c == 1 && n == 2);
+    match r {
+        Ok(s) => {
+            assert!(allowed);
+            assert!(rank(QueryStatus::from(&s)) == n - 1);
+        }
+        Err(StateError::AlreadyRunning) => assert!(!allowed && n == 1),
+        Err(StateError::InvalidState { from, to }) => {
+            assert!(!allowed && n == 2);
+            assert!(from == QueryStatus::from(&cur));
+            assert!(to == QueryStatus::AwaitingInputs);
+        }
+    }
+}
+
+/// C18: QueryStatus::from(&QueryState) names the state it is given (non-Empty states)
+#[kani::proof]
+fn c18_status_of_state() {
+    let c: u8 = kani::any();
+    kani::assume(c >= 1 && c < 5);
+    kani::cover!(c == 4);
+    let st = QueryStatus::from(&mk(c));
+    let expect = match c {
+        1 => QueryStatus::Preparing,
+        2 => QueryStatus::AwaitingInputs,
+        3 => QueryStatus::AwaitingCompletion,
+        _ => QueryStatus::Completed,
+    };
+    assert!(st == expect);
+}
+
 #[cfg(test)]
 include!(concat!(env!("IPA_VERIF_DIR"), "/.build/playback/query_state.rs"));
